@@ -59,6 +59,15 @@ theorem C10_probe_closed_rows :
       ∀ e ∈ Probe.entries, ∀ b, e.2 = .tx b → Probe.cell (Probe.stateAfter w) e = (e.1, "closedout", false) := by
   decide
 
+/-- the probe table has a column for every transmit family of the property's text (the same list as
+`C10_gen_entry_points_complete`), for `Close`, and for the two token interfaces -/
+theorem C10_probe_entries_complete :
+    ∀ n ∈ ["Send", "SendElement", "Encode", "EncodeElement", "SendIQ", "SendIQElement", "EncodeIQ", "EncodeIQElement",
+        "SendMessage", "SendMessageElement", "EncodeMessage", "EncodeMessageElement", "SendPresence",
+        "SendPresenceElement", "EncodePresence", "EncodePresenceElement", "UnmarshalIQ", "UnmarshalIQElement",
+        "IterIQ", "IterIQElement", "Close", "TokenWriter.EncodeToken", "TokenWriter.Flush", "TokenWriter.Close",
+        "TokenReader.Token"], n ∈ Probe.entries.map (·.1) := by decide
+
 /-- non-vacuity: eight of the nine ways leave the output closed; on the open session every
 transmit entry reaches the connection -/
 example : (Probe.ways.filter fun w => (Probe.stateAfter w).outClosed).length = 8 := by decide
